@@ -71,6 +71,13 @@ func panicSitesIn(fn *ssa.Function) []PanicSite {
 // reachableFrom computes repository functions reachable from the entries in the call graph,
 // remembering one predecessor per function for path reporting.
 func (w *World) reachableFrom(entries []*ssa.Function) (map[*ssa.Function]*ssa.Function, []*ssa.Function) {
+	return w.reachableFromMode(entries, true)
+}
+
+// reachableFromMode: allClosures=true treats every closure created in a reachable function as reachable (sound for
+// "can this abort ever run once these goroutines exist"); false only follows closures handed directly to a callee
+// without a body (e.g. retry.Do(ctx, func)), which is what a synchronous request path can execute.
+func (w *World) reachableFromMode(entries []*ssa.Function, allClosures bool) (map[*ssa.Function]*ssa.Function, []*ssa.Function) {
 	cg := w.CallGraph()
 	pred := map[*ssa.Function]*ssa.Function{}
 	var order []*ssa.Function
@@ -99,9 +106,32 @@ func (w *World) reachableFrom(entries []*ssa.Function) (map[*ssa.Function]*ssa.F
 		}
 		// closures created here may be invoked by callees outside the program view (dependencies without bodies)
 		eachInstr(f, func(in ssa.Instruction) {
-			if mc, ok := in.(*ssa.MakeClosure); ok {
-				if g, ok := mc.Fn.(*ssa.Function); ok {
-					outs = append(outs, g)
+			if allClosures {
+				if mc, ok := in.(*ssa.MakeClosure); ok {
+					if g, ok := mc.Fn.(*ssa.Function); ok {
+						outs = append(outs, g)
+					}
+				}
+				return
+			}
+			c, ok := in.(*ssa.Call)
+			if !ok {
+				return
+			}
+			callee := c.Call.StaticCallee()
+			if callee != nil && callee.Blocks != nil {
+				return // analysed callee: VTA resolves what it calls
+			}
+			if c.Call.IsInvoke() {
+				return
+			}
+			for _, a := range c.Call.Args {
+				for _, v := range backSlice(a, SliceOpts{MaxDepth: 3}) {
+					if mc, ok := v.(*ssa.MakeClosure); ok {
+						if g, ok := mc.Fn.(*ssa.Function); ok {
+							outs = append(outs, g)
+						}
+					}
 				}
 			}
 		})
